@@ -22,9 +22,18 @@ func c08Compare(c *Ctx, o *opCase, d Delivery) {
 	harness.Pristine()
 	whole, _ := o.run(c, Delivery{})
 	harness.Pristine()
-	chunked, r := o.run(c, d)
+	// "any reader that delivers the same byte stream": for the entry points that take a plain
+	// io.Reader the device may also be one whose Seek method fails (a pipe, a forward-only wrapper)
+	seekFail := !o.e.NeedSeek && c.L("dev:0:x").Chance(1, 4)
+	chunked, r := o.runSeek(c, d, seekFail)
 	if c.PlanOnly {
 		return
+	}
+	if seekFail {
+		c.Inc("fault:seek-fails(io.Reader entry points):configured")
+		if r.Seeks > 0 {
+			c.Inc("fault:seek-fails(io.Reader entry points):fired")
+		}
 	}
 	c.Inc("entry:" + o.e.Name)
 	if (whole.Panic != nil && whole.Panic.Class == "budget") || (chunked.Panic != nil && chunked.Panic.Class == "budget") {
@@ -45,7 +54,7 @@ func c08Compare(c *Ctx, o *opCase, d Delivery) {
 		c.Inc("probe:failing-input-compared")
 	}
 	if site, detail := resultDiff(whole, chunked); site != "" {
-		c.Fail("mismatch", o.e.Name, site, fmt.Sprintf("whole delivery vs %s: %s", d, detail))
+		c.Fail("mismatch", o.e.Name, site, fmt.Sprintf("whole delivery vs %s (seek fails: %v): %s", d, seekFail, detail))
 	}
 	c.Descf("whole: err=%s; chunked(%s): err=%s shortreads=%d calls=%d", whole.Err, d, chunked.Err, r.ShortReads, r.Calls)
 }
